@@ -62,6 +62,7 @@ def c06(res):
     feed_traces(res, fam(t, 250000, 3000000), kinds="0")
     if t == "thorough":
         mc_head(res, "language-req-all-bytes", invs=["InvLanguage"], kinds='{"req"}', family="BYTE", follow="{10, 32}", caps="{1, 100000}", timeout=3000)
+    call_traces(res)
 
 
 def c07(res):
@@ -75,6 +76,7 @@ def c07(res):
     feed_traces(res, fam(t, 250000, 3000000), kinds="1")
     if t == "thorough":
         mc_head(res, "language-resp-all-bytes", invs=["InvLanguage"], kinds='{"resp"}', family="BYTE", follow="{10}", caps="{100000}", cfgs="{0, 2, 94}", timeout=3000)
+    call_traces(res)
 
 
 def c08(res):
@@ -89,6 +91,7 @@ def c08(res):
     feed_traces(res, fam(t, 250000, 3000000), kinds="0,1,2")
     if t == "thorough":
         mc_head(res, "language-hdrs-all-bytes", invs=["InvLanguage"], kinds='{"hdrs", "req"}', family="BYTE", follow="{10}", caps="{1, 100000}", cfgs="{0}", timeout=3000)
+    call_traces(res)
 
 
 def c09(res):
@@ -104,6 +107,7 @@ def c09(res):
     feed_traces(res, fam(t, 250000, 3000000), kinds="3")
     if t == "thorough":
         mc_head(res, "language-chunk-all-bytes", invs=["InvLanguage", "InvFraming"], kinds='{"chunk"}', family="BYTE", follow="{10, 13, 32, 58, 97}", timeout=3000)
+    call_traces(res)
 
 
 def c10(res):
@@ -112,6 +116,7 @@ def c10(res):
     for f in fam(t, ["byte_q", "ext_q", "lines_q", "methods", "versions", "walk_q", "deep_q"], ["byte_t", "ext_t", "lines_t", "hdrext_t", "methods", "versions", "walk_t", "deep_t"]):
         replay_step(res, f, kinds=HEADS, modes="base")
     feed_traces(res, fam(t, 250000, 3000000), kinds="0,1,2")
+    call_traces(res)
 
 
 def c11(res):
@@ -139,6 +144,7 @@ def c03(res):
     for f in fam(t, ["byte_q", "ext_q", "lane_q", "lines_q", "chunk_q", "methods", "versions", "walk_q", "lane8_q"], ["byte_t", "ext_t", "lane_t", "lines_t", "chunk_t", "hdrext_t", "methods", "versions", "walk_t", "lane8_t"]):
         replay_step(res, f, modes="base")
     feed_traces(res, fam(t, 250000, 3000000), kinds="0,1,2,3")
+    call_traces(res)
 
 
 def c04(res):
@@ -168,6 +174,7 @@ def c14(res):
     feed_traces(res, fam(t, 250000, 3000000), kinds="0,1")
     if t == "thorough":
         mc_head(res, "language-options-all-bytes", invs=["InvLanguage"], kinds='{"resp"}', family="BYTE", follow="{10}", caps="{100000}", cfgs="{94, 8, 64, 4, 16}", phases=HDR_PHASES, timeout=3000)
+    call_traces(res)
 
 
 def multi(res, invs, depth, kinds=("req", "resp")):
@@ -202,6 +209,7 @@ def c17(res):
         replay_step(res, f, kinds=HEADS, modes="entries,caplaw")
     feed_traces(res, fam(t, 250000, 3000000), kinds="0,1,2")
     session_traces(res, fam(t, 6000, 100000))
+    call_traces(res)
 
 
 def nostd_link(res):
@@ -244,6 +252,7 @@ def c01(res):
         op_traces(res, 20000, backends=(None,), profile="dbgchk")
         work_traces(res, [65536, 1048576])
         parser_refinement(res, "4")
+    call_traces(res)
 
 
 VARIANTS = {
@@ -749,6 +758,55 @@ def cursor_inductive(res):
     apalache_step(res, "cursor-base", "ApaCursor", "CInit", "IndInv", length=0)
     apalache_step(res, "cursor-step", "ApaCursor", "IndInit", "IndInv", length=1)
     apalache_step(res, "cursor-reads-inside", "ApaCursor", "IndInit", "ReadsInside", length=1)
+
+
+CALL_PARTS = {
+    "C01": ('{}', "{0, 1, 2, 3}"),
+    "C03": ('{"n"}', "{0, 1, 2, 3}"),
+    "C06": ('{"st", "fields"}', "{0}"),
+    "C07": ('{"st", "fields"}', "{1}"),
+    "C08": ('{"st", "headers"}', "{0, 1, 2}"),
+    "C09": ('{"st", "n", "digits"}', "{3}"),
+    "C10": ('{"err"}', "{0, 1, 2}"),
+    "C14": ('{"st", "headers"}', "{0, 1}"),
+    "C17": ('{"st", "count", "err"}', "{0, 1, 2}"),
+}
+
+
+def call_traces(res):
+    """long inputs (4..70 KiB, up to 300 header lines): one recorded call per input, validated by TraceCall"""
+    parts, kinds = CALL_PARTS[res.prop]
+    wd = os.path.join(WORK, "run", "%s-%s" % (res.prop, res.tier), "call")
+    shutil.rmtree(wd, ignore_errors=True)
+    os.makedirs(wd)
+    out = os.path.join(wd, "call")
+    r = run_driver(["call", "--out", out, "--shards", str(NCPU), "--seed", str(res.seed)] + (["--thorough"] if res.tier == "thorough" else []))
+    if r.returncode != 0:
+        res.violation("the code under test crashed on a long input (rc=%d)" % r.returncode, {"kind": "call-crash", "key": "call-crash", "stderr": r.stderr[-400:]})
+        return
+    info = json.loads(r.stdout.strip().splitlines()[-1])
+    files = [out + ".%d" % i for i in range(NCPU)]
+    cfg = "SPECIFICATION TSpec\nCONSTANTS\n  Parts = %s\n  JKinds = %s\nPOSTCONDITION Accepted\nCHECK_DEADLOCK FALSE\n" % (parts, kinds)
+    results = validate_traces(res, "call", "TraceCall", cfg, files)
+    res.traces += info["calls"]
+    res.evaluations += info["bytes"]
+    res.nontrivial += info["calls"]
+    res.extra["long_inputs"] = info
+    for tf, ok, idx, n, inv in results:
+        if ok:
+            continue
+        lines = open(tf).read().splitlines()
+        ev = json.loads(lines[idx - 1])
+        k = idx - 2
+        nb = 0
+        while k >= 0 and json.loads(lines[k]).get("ev") != "begin":
+            nb += len(json.loads(lines[k]).get("b", []))
+            k -= 1
+        beg = json.loads(lines[k]) if k >= 0 else {}
+        msg = ("long input (%d bytes, kind %s, option bits %s, capacity %s): the recorded result st=%s n=%s err=%s (%d headers) is not the automaton's (judged parts %s)"
+               % (nb, beg.get("kind"), beg.get("cfg"), beg.get("cap"), ev.get("st"), ev.get("n"), ev.get("err"), len(ev.get("h", [])), parts))
+        res.violation(msg, {"kind": "call", "begin": beg, "end": ev, "bytes": nb, "key": "call:%s:%s:%s:%d" % (beg.get("kind"), beg.get("cfg"), beg.get("cap"), nb)})
+    shutil.rmtree(wd, ignore_errors=True)
 
 
 def c20(res):
